@@ -453,6 +453,24 @@ Theorem C05_source_roundtrip_module :
 Proof. exact source_roundtrip_module. Qed.
 Print Assumptions C05_source_roundtrip_module.
 
+(** "all instantiations of one definition yield one and the same item": [C05_one_item] carried
+    through the emission - the parse trees of the items printed for two coincidence-free
+    instantiations agree up to derives / docs / user attributes (no plainness hypothesis) *)
+Theorem C05_one_stripped_item :
+  forall defs L r s (order_tp : bool -> tpath),
+  RegistryOf defs L r -> (forall sd, In sd defs -> def_okb s sd = true) ->
+  prelude_okb s = true -> order_resolves s order_tp ->
+  forall d sd, nth_error defs d = Some sd ->
+  forallb (fun f => no_cow_cow (sf_ty f)) (def_sfields sd) = true -> box_names_okb defs sd = true ->
+  forall args1 args2 t1 t2 flat1 flat2 ir1 ir2,
+  instantiation_cf defs sd args1 = true -> map canon args1 = args1 -> compact_fields_okb defs sd args1 = true ->
+  instantiation_cf defs sd args2 = true -> map canon args2 = args2 -> compact_fields_okb defs sd args2 = true ->
+  entry_of defs L r (SApp d args1) t1 -> entry_of defs L r (SApp d args2) t2 ->
+  create_type_ir r s t1 flat1 = Ok (Some ir1) -> create_type_ir r s t2 flat2 = Ok (Some ir2) ->
+  strip_item (item_of_ir s ir1) = strip_item (item_of_ir s ir2).
+Proof. exact one_stripped_item. Qed.
+Print Assumptions C05_one_stripped_item.
+
 (** the correspondence with the checker's [expected_of]: it is [expected_of_settings] at the
     program and the settings of the case (by conversion), and [expected_of_source] equals
     [expected_of_settings] when the bit-order markers read as [::bits::order::{Lsb0,Msb0}] (needed
